@@ -25,6 +25,10 @@ pub struct Config {
     pub rmatch_map: bool,
     /// R-match (opt-in): `e.map(Ok)` on a Result
     pub rmatch_map_ok: bool,
+    /// R-capture: variables captured (and mutated) by the extracted closure, passed as `&mut` parameters
+    pub capture_mut: Vec<String>,
+    /// R-match (with rmatch_map_ok): `e.map(PATH)` on a Result for these function paths
+    pub rmatch_map_result_paths: Vec<String>,
     /// R-dropstmt: statements (by normalized text prefix) removed from a fragment; each removal is recorded
     pub drop_stmts: Vec<String>,
     /// R-for: `for P in E { B }` -> `{ let mut it = E; let ghost it0 = it; loop { match it.next() { Some(P) => { B } None => { break; } } } }`
@@ -71,6 +75,8 @@ impl Config {
             rderef: v["rderef"].as_bool().unwrap_or(true),
             rmatch_map: v["rmatch_map"].as_bool().unwrap_or(false),
             rmatch_map_ok: v["rmatch_map_ok"].as_bool().unwrap_or(false),
+            capture_mut: strs(&v["capture_mut"]),
+            rmatch_map_result_paths: strs(&v["rmatch_map_result_paths"]).iter().map(|s| norm(s)).collect(),
             drop_stmts: strs(&v["drop_stmts"]).iter().map(|s| norm(s)).collect(),
             rfor: v["rfor"].as_bool().unwrap_or(false),
             ralloc: v["ralloc"].as_bool().unwrap_or(false),
@@ -566,7 +572,38 @@ impl<'a, 'ast> Visit<'ast> for Rewriter<'a> {
         self.visit_macro(&m.mac);
     }
 
+    fn visit_expr_reference(&mut self, e: &'ast ExprReference) {
+        // R-capture: a variable that a `move` closure captures and mutates is a `&mut` parameter of the wrapped
+        // function; `&mut X` on such a variable is `&mut *X`
+        if e.mutability.is_some() {
+            if let Expr::Path(p) = &*e.expr {
+                if let Some(id) = p.path.get_ident() {
+                    if self.cfg.capture_mut.iter().any(|x| id == x) {
+                        let r = self.r(e.expr.span());
+                        self.edits.insert(r.0, "*".to_string(), "R-capture");
+                        self.note("R-capture", e.span());
+                        return;
+                    }
+                }
+            }
+        }
+        visit::visit_expr_reference(self, e);
+    }
+
     fn visit_local(&mut self, l: &'ast Local) {
+        // R-refpat: `let &x = E;` -> `let x = *(E);` (a reference pattern binding a Copy value)
+        if let (Pat::Reference(pr), Some(init)) = (&l.pat, &l.init) {
+            if let (Pat::Ident(pi), None) = (&*pr.pat, &pr.mutability) {
+                if init.diverge.is_none() && pi.by_ref.is_none() && pi.subpat.is_none() {
+                    let patr = self.r(l.pat.span());
+                    let er = self.r(init.expr.span());
+                    self.edits.replace(patr, vec![Piece::Lit(pi.ident.to_string())], "R-refpat");
+                    self.edits.insert(er.0, "*(".to_string(), "R-refpat");
+                    self.edits.insert(er.1, ")".to_string(), "R-refpat");
+                    self.note("R-refpat", l.span());
+                }
+            }
+        }
         if let Some(init) = &l.init {
             self.visit_expr(&init.expr);
             if let Some((_, d)) = &init.diverge {
@@ -1076,6 +1113,27 @@ impl<'a, 'ast> Visit<'ast> for Rewriter<'a> {
             // R-match: `e.map(Ok)` on a Result -> `match e { Ok(v) => Ok(Ok(v)), Err(x) => Err(x) }` (a datatype
             // constructor used as a function value is outside Verus' dialect)
             if let Expr::Path(p) = &m.args[0] {
+                let ptxt = norm(self.sf.slice(self.r(p.span())));
+                if self.cfg.rmatch_map_result_paths.contains(&ptxt) {
+                    // `e.map(PATH)` on a Result, PATH a function named by the unit file
+                    self.visit_expr(&m.receiver);
+                    let rr = self.r(m.receiver.span());
+                    let pr = self.r(p.span());
+                    let whole = self.r(m.span());
+                    self.edits.replace(
+                        whole,
+                        vec![
+                            Piece::Lit("(match ".into()),
+                            Piece::Src(rr.0, rr.1),
+                            Piece::Lit(" { Ok(__vx_v) => Ok(".into()),
+                            Piece::Src(pr.0, pr.1),
+                            Piece::Lit("(__vx_v)), Err(__vx_e) => Err(__vx_e) })".into()),
+                        ],
+                        "R-match",
+                    );
+                    self.note("R-match", m.span());
+                    return;
+                }
                 if p.path.is_ident("Ok") {
                     self.visit_expr(&m.receiver);
                     let rr = self.r(m.receiver.span());
